@@ -79,6 +79,9 @@ def main(argv):
                 for e in edits:
                     fp = os.path.join(copy, e["file"])
                     s = open(fp).read()
+                    if (e.get("first_only") or m.get("first_only")) and s.count(e["old"]) >= 1:
+                        open(fp, "w").write(s.replace(e["old"], e["new"], 1))
+                        continue
                     if s.count(e["old"]) != 1:
                         ok = False
                         print(m["name"], f"EDIT NOT APPLICABLE ({s.count(e['old'])} matches) in {e['file']}")
